@@ -2,7 +2,7 @@
 # run every registered check at the given tier (default quick) and print one line per check
 tier=${1:-quick}
 cd "$(dirname "$0")/.."
-for p in C01 C02 C03 C04 C05 C06 C07 C08 C09 C10 C11 C12 C13 C14 C15 C16 C17 C18 C19 C20; do
+for p in ${PROPS:-C01 C02 C03 C04 C05 C06 C07 C08 C09 C10 C11 C12 C13 C14 C15 C16 C17 C18 C19 C20}; do
   s=$(date +%s)
   out=$(/venv/bin/python -m mc.check $p --tier $tier 2>&1); rc=$?
   e=$(date +%s)
